@@ -31,6 +31,45 @@ func c04Tracer(typ string, id int, v Expr) Expr {
 	return Call{Fn: fn, Args: []Expr{lit(id), v}}
 }
 
+// The shapes a traced operand can take. D is the tracer call written directly in the slot; the others keep the
+// value and the single evaluation but make the slot's expression something else than a direct call: A a binary
+// operation on the call (t + 0, ts + "", !tb(!v)), G the call in parentheses, N the call as argument of another
+// user function (which reports its own entry), B the call as argument of a builtin / as operand of a comparison
+// (v + len(ts(id, "")), itoa-free for strings: ts(..)[0:len], tb(..) == true).
+var c04Forms = []string{"D", "A", "G", "N", "B"}
+
+func c04TracerForm(typ string, id int, v Expr, form string) Expr {
+	d := c04Tracer(typ, id, v)
+	if typ == "slice" || form == "D" {
+		return d
+	}
+	switch form {
+	case "G":
+		return Group{X: d}
+	case "N":
+		return Call{Fn: map[string]string{"int": "idi", "bool": "idb", "string": "ids"}[typ], Args: []Expr{d}}
+	case "A":
+		switch typ {
+		case "int":
+			return Binary{Op: "+", L: d, R: lit(0)}
+		case "string":
+			return Binary{Op: "+", L: d, R: StrLit{V: ""}}
+		default:
+			return Unary{Op: "!", X: c04Tracer(typ, id, Unary{Op: "!", X: Group{X: v}})}
+		}
+	case "B":
+		switch typ {
+		case "int":
+			return Binary{Op: "+", L: Group{X: v}, R: Len{X: c04Tracer("string", id, StrLit{V: ""})}}
+		case "string":
+			return Binary{Op: "+", L: StrLit{V: ""}, R: d}
+		default:
+			return Binary{Op: "==", L: d, R: BoolLit{true}}
+		}
+	}
+	panic("c04TracerForm: " + form)
+}
+
 func c04Prelude() []Stmt {
 	tr := func(name string, t Type) Stmt {
 		return FuncDef{Name: name, Params: []Param{{"id", TInt}, {"v", t}}, Rets: []Type{t}, Body: []Stmt{
@@ -59,6 +98,10 @@ func c04Prelude() []Stmt {
 			Print{Args: []Expr{StrLit{V: "f1"}, Var{"a"}}},
 			Return{Vals: []Expr{Binary{Op: "*", L: Var{"a"}, R: lit(2)}}},
 		}},
+		// identity functions that report their entry (tracer form N)
+		FuncDef{Name: "idi", Params: []Param{{"a", TInt}}, Rets: []Type{TInt}, Body: []Stmt{Print{Args: []Expr{StrLit{V: "idi"}, Var{"a"}}}, Return{Vals: []Expr{Var{"a"}}}}},
+		FuncDef{Name: "idb", Params: []Param{{"a", TBool}}, Rets: []Type{TBool}, Body: []Stmt{Print{Args: []Expr{StrLit{V: "idb"}, Var{"a"}}}, Return{Vals: []Expr{Var{"a"}}}}},
+		FuncDef{Name: "ids", Params: []Param{{"a", TStr}}, Rets: []Type{TStr}, Body: []Stmt{Print{Args: []Expr{StrLit{V: "ids"}, Var{"a"}}}, Return{Vals: []Expr{Var{"a"}}}}},
 	}
 }
 
@@ -320,11 +363,18 @@ func c04Templates() []c04Tmpl {
 
 var c04Contexts = []string{"top", "function", "loop", "if-branch", "elif-branch", "case-body", "nested"}
 
-func c04Program(t c04Tmpl, mask int, ctx string) *Prog {
+func c04Program(t c04Tmpl, mask int, ctx string) *Prog { return c04ProgramForms(t, mask, ctx, nil) }
+
+// forms[i] is the shape of the tracer in slot i (nil: every tracer is a direct call)
+func c04ProgramForms(t c04Tmpl, mask int, ctx string, forms []string) *Prog {
 	ops := make([]Expr, len(t.plain))
 	for i := range ops {
 		if mask&(1<<i) != 0 {
-			ops[i] = c04Tracer(t.types[i], i+1, t.plain[i])
+			f := "D"
+			if forms != nil {
+				f = forms[i]
+			}
+			ops[i] = c04TracerForm(t.types[i], i+1, t.plain[i], f)
 		} else {
 			ops[i] = t.plain[i]
 		}
@@ -433,6 +483,60 @@ func C04() int {
 			}
 		}
 	}
+	// tracer shapes: every traced slot in every shape of c04Forms (single slots: every context; several slots:
+	// every vector of shapes at top level, thorough also in a function and in a loop)
+	shaped := 0
+	for _, t := range tm {
+		for mask := 1; mask < 1<<len(t.plain); mask++ {
+			var slotsOf []int
+			for i := range t.plain {
+				if mask&(1<<i) != 0 && t.types[i] != "slice" {
+					slotsOf = append(slotsOf, i)
+				}
+			}
+			if len(slotsOf) == 0 {
+				continue
+			}
+			ctxs := []string{"top"}
+			if len(slotsOf) == 1 {
+				ctxs = c04Contexts
+			} else if r.Thorough() {
+				ctxs = []string{"top", "function", "loop"}
+			}
+			nv := 1
+			for range slotsOf {
+				nv *= len(c04Forms)
+			}
+			for v := 0; v < nv; v++ {
+				forms := make([]string, len(t.plain))
+				for i := range forms {
+					forms[i] = "D"
+				}
+				allD, x := true, v
+				for _, sl := range slotsOf {
+					forms[sl] = c04Forms[x%len(c04Forms)]
+					x /= len(c04Forms)
+					if forms[sl] != "D" {
+						allD = false
+					}
+				}
+				if allD {
+					continue // the plain programs above
+				}
+				var ids []string
+				for i := range t.plain {
+					if mask&(1<<i) != 0 {
+						ids = append(ids, fmt.Sprint(i+1)+forms[i])
+					}
+				}
+				for _, ctx := range ctxs {
+					all = append(all, item{fmt.Sprintf("stmt=%s traced=[%s] ctx=%s", t.name, strings.Join(ids, ","), ctx), c04ProgramForms(t, mask, ctx, forms)})
+					shaped++
+				}
+			}
+		}
+	}
+	r.Set("shaped_tracer_programs", shaped)
 	// twins: every operand slot of a statement holds the SAME effectful expression text (nx() for int slots, nb()
 	// for bool, ns() for string: each call bumps n and returns a value derived from it), so structurally equal
 	// operands occur several times in one statement; each occurrence is its own evaluation
